@@ -16,7 +16,7 @@ from ..core import Run
 from ..pool import run_ops
 from ..tlc import read_export, run_tlc, validate_traces
 
-ALL = set(range(1, 81))
+ALL = set(range(1, 88))
 TIERS = {
     "quick": [dict(MaxItems=1, ItemUse=ALL, PrefixUse={1, 2, 3, 4, 5, 6, 7, 8}, QuoteUse={1, 2, 3, 4}, Concat=True),
               dict(MaxItems=2, ItemUse=ALL, PrefixUse={1}, QuoteUse={2, 3}, Concat=False),
